@@ -133,11 +133,11 @@ func (e *termEnv) computePath(v ssa.Value) string {
 		if b, ok := e.bind[x]; ok {
 			return strings.TrimPrefix(strings.TrimPrefix(b, "&"), "@")
 		}
-		return x.Name()
+		return refParamName(x)
 	case *ssa.FieldAddr:
-		return e.path(x.X) + "." + fieldOfAddr(x).Name()
+		return e.path(x.X) + "." + refNameOf(fieldOfAddr(x))
 	case *ssa.Field:
-		return e.path(x.X) + "." + fieldOfField(x).Name()
+		return e.path(x.X) + "." + refNameOf(fieldOfField(x))
 	case *ssa.UnOp:
 		if x.Op == token.MUL {
 			// a loaded pointer: if the store is known use it, else the location's own path
@@ -160,7 +160,7 @@ func (e *termEnv) computePath(v ssa.Value) string {
 		}
 		return "alloc:" + x.Name()
 	case *ssa.Global:
-		return "G:" + x.Name()
+		return "G:" + refNameOf(x.Object())
 	case *ssa.Slice:
 		if x.Low == nil && x.High == nil {
 			return e.path(x.X)
@@ -420,9 +420,9 @@ func (e *termEnv) compute(v ssa.Value) string {
 			return b
 		}
 		if _, isPtr := x.Type().Underlying().(*types.Pointer); isPtr {
-			return "&" + e.canonPath(x.Name())
+			return "&" + e.canonPath(refParamName(x))
 		}
-		return "$" + x.Name()
+		return "$" + refParamName(x)
 	case *ssa.Convert:
 		if k := keepConv(x); k != "" {
 			return "(" + k + " " + e.T(x.X) + ")"
